@@ -11,6 +11,8 @@ CONSTANTS
   MaxMsgs = 1
   MaxMarkers = 3
 INVARIANT TypeOK
+INVARIANT PosIsState
+INVARIANT AnnouncedPosition
 INVARIANT StampsTitleSection
 INVARIANT CleanAfterStartPage
 INVARIANT PathIsTitle
